@@ -150,4 +150,116 @@ theorem compression_exact (k : CompKind) (p : Name) (ct : Nat) (fs0 : FS) :
       obtain ⟨r, hr1, hr2, hr3⟩ := hmoved' w2 hfr a ha
       exact ⟨r, hr2, by rw [h3]; simp [get_del, hr1, hr3]⟩
 
+/-! ### no failure is swallowed: a normal return means no consumed fault bit was set -/
+
+/-- the fault bits consumed so far (since the vector was `f0`) were all `false` -/
+def NF (f0 : List Bool) (w : W) : Prop := ∃ pre, f0 = pre ++ w.faults ∧ ∀ b ∈ pre, b = false
+
+theorem NF.frame {f0 : List Bool} {w w' : W} (h : NF f0 w) (hf : w'.faults = w.faults) : NF f0 w' := by
+  obtain ⟨pre, h1, h2⟩ := h
+  exact ⟨pre, by rw [hf]; exact h1, h2⟩
+
+theorem tick_nf (f0 : List Bool) (e : Ev) : Triple (NF f0) (tick e) (fun _ => NF f0) (fun _ => True) := by
+  rintro w ⟨pre, h1, h2⟩
+  cases hw : w.faults with
+  | nil =>
+    have : tick e w = (.ok (), { w with trace := e :: w.trace, faults := [] }) := by simp [tick, hw]
+    rw [this]
+    exact ⟨pre, by rw [h1, hw], h2⟩
+  | cons b t =>
+    cases b with
+    | true =>
+      have : tick e w = (.error .osError, { w with trace := e :: w.trace, faults := t }) := by simp [tick, hw]
+      rw [this]; trivial
+    | false =>
+      have : tick e w = (.ok (), { w with trace := e :: w.trace, faults := t }) := by simp [tick, hw]
+      rw [this]
+      refine ⟨pre ++ [false], by rw [h1, hw]; simp, ?_⟩
+      intro b hb
+      rcases List.mem_append.1 hb with hb | hb
+      · exact h2 b hb
+      · simpa using hb
+
+theorem modW_nf (f0 : List Bool) (f : W → W) (hf : ∀ w, (f w).faults = w.faults) :
+    Triple (NF f0) (modW f) (fun _ => NF f0) (fun _ => True) :=
+  modW_spec _ (fun w h => h.frame (hf w))
+
+theorem throw_nf {α} (f0 : List Bool) (e : Err) {P : W → Prop} {Q : α → W → Prop} :
+    Triple P (M.throw e : M α) Q (fun _ => True) := fun _ _ => trivial
+
+theorem getCtime_nf (f0 : List Bool) (n : Name) : Triple (NF f0) (getCtime n) (fun _ => NF f0) (fun _ => True) := by
+  unfold getCtime
+  refine Triple.seq (tick_nf f0 _) (Triple.bindGet (fun a => Triple.pre ?_ (fun w h => h.2)))
+  exact Triple.ite (fun _ => throw_nf f0 _) (fun _ => Triple.unit)
+
+theorem rename_nf (f0 : List Bool) (a b : Name) : Triple (NF f0) (rename a b) (fun _ => NF f0) (fun _ => True) := by
+  unfold rename
+  refine Triple.seq (tick_nf f0 _) (Triple.bindGet (fun w0 => Triple.pre ?_ (fun w h => h.2)))
+  cases w0.fs.get a with
+  | none => exact throw_nf f0 _
+  | some e => exact modW_nf f0 _ (fun _ => rfl)
+
+theorem remove_nf (f0 : List Bool) (n : Name) : Triple (NF f0) (remove n) (fun _ => NF f0) (fun _ => True) := by
+  unfold remove
+  refine Triple.seq (tick_nf f0 _) (Triple.bindGet (fun w0 => Triple.pre ?_ (fun w h => h.2)))
+  exact Triple.ite (fun _ => throw_nf f0 _) (fun _ => modW_nf f0 _ (fun _ => rfl))
+
+theorem compressFn_nf (f0 : List Bool) (k : CompKind) (p out : Name) :
+    Triple (NF f0) (compressFn k p out) (fun _ => NF f0) (fun _ => True) := by
+  unfold compressFn
+  refine Triple.seq ?_ (Triple.seq (tick_nf f0 _) (Triple.seq (modW_nf f0 _ (fun _ => rfl))
+    (Triple.seq (tick_nf f0 _) (Triple.bindGet (fun w0 => Triple.pre ?_ (fun w h => h.2))))))
+  · unfold openSrc
+    refine Triple.ite (fun _ => ?_) (fun _ => Triple.unit)
+    refine Triple.seq (tick_nf f0 _) (Triple.bindGet (fun a => Triple.pre ?_ (fun w h => h.2)))
+    exact Triple.ite (fun _ => throw_nf f0 _) (fun _ => Triple.unit)
+  · cases w0.fs.get p with
+    | none => exact throw_nf f0 _
+    | some e => exact modW_nf f0 _ (fun _ => rfl)
+
+/-- `Compression.compression` has no handler: when it returns normally, none of the primitives it performed
+had failed (whatever the kind of failure) -/
+theorem compression_nf (f0 : List Bool) (k : CompKind) (p : Name) (ct : Nat) :
+    Triple (NF f0) (compression k p ct) (fun _ => NF f0) (fun _ => True) := by
+  unfold compression
+  apply Triple.seqM
+  intro a ha
+  obtain ⟨s, _, rfl⟩ := List.mem_map.1 ha
+  cases s with
+  | pathOut => exact Triple.unit
+  | collisionRename =>
+    unfold cStep
+    refine Triple.bindGet (fun w0 => Triple.pre ?_ (fun w h => h.2))
+    refine Triple.ite (fun _ => ?_) (fun _ => Triple.unit)
+    refine Triple.seq (getCtime_nf f0 _) (Triple.bindGet (fun w1 => Triple.pre ?_ (fun w h => h.2)))
+    cases genRename w1.fs (fun c => Name.arc (Name.ren p ct c)) with
+    | none => exact throw_nf f0 _
+    | some r => exact rename_nf f0 _ r
+  | compress => exact compressFn_nf f0 k p _
+  | removeSource => exact remove_nf f0 p
+
+/-! ### the existence probe of `generate_rename_path`, as a parameter -/
+
+/-- the counter loop with an arbitrary "is this name taken?" test -/
+def renameLoopP (taken : Name → Bool) (cand : Nat → Name) : Nat → Nat → Option Name
+  | 0, _ => none
+  | fuel + 1, c => if taken (cand c) then renameLoopP taken cand fuel (c + 1) else some (cand c)
+
+theorem renameLoop_eq (fs : FS) (cand : Nat → Name) (fuel c : Nat) :
+    renameLoop fs cand fuel c = renameLoopP fs.has cand fuel c := by
+  induction fuel generalizing c with
+  | zero => rfl
+  | succ f ih => simp only [renameLoop, renameLoopP, ih]
+
+theorem renameLoopP_not_taken (taken : Name → Bool) (cand : Nat → Name) (fuel c : Nat) (r : Name)
+    (h : renameLoopP taken cand fuel c = some r) : taken r = false := by
+  induction fuel generalizing c with
+  | zero => simp [renameLoopP] at h
+  | succ f ih =>
+    simp only [renameLoopP] at h
+    by_cases hc : taken (cand c) = true
+    · simp only [hc, ↓reduceIte] at h; exact ih (c + 1) h
+    · simp only [hc, Bool.false_eq_true, ↓reduceIte, Option.some.injEq] at h
+      subst h; simpa using hc
+
 end FileSink
